@@ -105,6 +105,11 @@ func cmdFn(repo string, names []string, verbose bool, timeout int) int {
 				}
 			}
 			fmt.Printf("  %-70s x%-3d %s %.2fs %v\n", a.Name, a.N, status, a.TimeS, a.Props)
+			if debugPaths {
+				for _, f := range a.Failed {
+					fmt.Printf("    FAILED PATH %s -> %s (%s)\n", f.Path, f.Res.Status, f.Res.File)
+				}
+			}
 			if verbose && len(a.Failed) > 0 {
 				f := a.Failed[0]
 				fmt.Printf("    path %s file %s\n    %s\n", f.Path, f.Res.File, firstLines(f.Res.Output, 40))
@@ -181,3 +186,11 @@ func cmdStage2(args []string) int {
 	}
 	return rc
 }
+
+func init() {
+	if os.Getenv("GOVC_PATHS") != "" {
+		debugPaths = true
+	}
+}
+
+var debugPaths bool
